@@ -21,6 +21,9 @@ def shapes(l):
     yield 'choice', ('choice', ('seq', l, l), ('seq', l, B)), []
     yield 'expect', ('seq', ('expect', l), l, B), []
     yield 'expectnot', ('seq', ('expectnot', l), B), []
+    # lookahead over several tokens: ignorable text between them is skipped inside the lookahead too
+    yield 'expect-seq', ('seq', ('expect', ('seq', l, B)), l, B), []
+    yield 'expectnot-seq', ('seq', ('expectnot', ('seq', l, B)), l), []
     yield 'sep', ('sep', l, ('str', ','), True, False, True, False), []
     yield 'septrail', ('sep', l, B, False, True, True, False), []
     yield 'optable', ('optable', l, (('left', (B,)),)), []
@@ -71,10 +74,16 @@ def jobs(tier):
     n1 = 5 if tier == 'quick' else 6
     for l in LITS:
         for sn, body, extra in shapes(l):
-            for kind in ('rule', 'class'):
+            for kind in ('rule', 'class', 'class-pass-first'):
                 if kind == 'rule':
                     sd = ('rule', None, body)
                     sname = 'start'
+                elif kind == 'class-pass-first':
+                    if sn not in ('lit', 'seq', 'opt', 'choice'):
+                        continue
+                    # the first member of the start class is an unnamed `pass` member
+                    sd = ('class', None, [(None, True, body), ('q', False, ('opt', B))])
+                    sname = 'Start'
                 else:
                     sd = ('class', None, [('p', False, body), ('q', False, ('opt', B))])
                     sname = 'Start'
@@ -105,7 +114,7 @@ def jobs(tier):
 
 def run(tier, seed):
     chk = Check('C04', tier, seed)
-    chk.rule = ('4 literal kinds (+ byte literals in bytes mode) x 16 enclosing start-rule shapes x {plain rule, class} start x 9 ignore '
+    chk.rule = ('4 literal kinds (+ byte literals in bytes mode) x 18 enclosing start-rule shapes x {plain rule, class, class whose first member is a pass member} start x 9 ignore '
                 'declarations (one/two patterns, named/anonymous, ignore/ignored, before/after the rules, pattern matching line breaks) '
                 'x entry points {parse, every parameterless rule} x all inputs over {a,b,space,#|,} up to length 5/6; oracle: model '
                 'with the skip rule (after every successful literal, before the start rule body only) incl. spans, plus the metamorphic '
